@@ -408,6 +408,19 @@ def _impl_to(case):
     second = np.asarray(est._pmf_predict(Xm, sensitive_features=sq), dtype=float)
     fresh2 = np.asarray(est._pmf_predict(_copy.deepcopy(Xm), sensitive_features=sq), dtype=float)
     res["same_object_modified_ok"] = bool(np.array_equal(second, fresh2))
+    # a ONE-row query is sampled like any other row: with a scripted generator the label is [u <= p]
+    res["single_draws"] = []
+    for i_ in range(len(pmf)):
+        p_ = float(pmf[i_, 1])
+        if 0.0 < p_ < 1.0:
+            Xs, ss = frame([i_])
+            for u_ in (0.0, min(p_ / 2, 0.25), (1 + p_) / 2):
+                try:
+                    lab = np.asarray(est.predict(Xs, sensitive_features=ss, random_state=_scripted([u_]))).reshape(-1)
+                    res["single_draws"].append([i_, p_, u_, float(lab[0])])
+                except Exception as e:  # noqa
+                    res["single_draws"].append([i_, p_, u_, f"{type(e).__name__}"])
+            break
     # single-row query (a table with one row must give the same entry)
     X1, s1 = frame([idx[0]])
     res["pmf_single"] = [float(v) for v in np.asarray(est._pmf_predict(X1, sensitive_features=s1)).reshape(-1)]
@@ -810,6 +823,13 @@ def compare(case, out, model):
                 break
         if any(abs(a - b) > TOL for a, b in zip(out["pmf_single"], pmf[out["perm_idx"][0]])):
             pass
+        for i_, p_, u_, lab in out.get("single_draws", []):
+            want = 1.0 if u_ <= p_ else 0.0
+            if lab != want:
+                v.append((f"{PID}/{ep}/predict/single-row-not-sampled",
+                          f"one-row query (row {i_}, p={p_!r}) with uniform number {u_!r} returned {lab!r}, expected {want}",
+                          "a single-row query is drawn from its reported probability like any other row", "property"))
+                break
         if out.get("same_object_other_sf_ok") is False or out.get("same_object_modified_ok") is False:
             v.append((f"{PID}/{ep}/_pmf_predict/depends-on-earlier-calls",
                       "asking the same feature-table object again (with other sensitive features / after an in-place "
